@@ -1277,7 +1277,7 @@ func main() {
 		Rule:  "plain workers enumerate the operator/function/method x argument-tuple table (methods taken from the library's documentation tables, so new built-ins are covered automatically) in 7 contexts each, in subprocesses whose death is a verdict; coop workers explore all schedules of fault-injection scenarios under the controlled scheduler. distinct_nontrivial = distinct (expression, argument tuple) cases whose bare evaluation is an error, plus coop scenarios",
 		Assumptions: []string{"a fault is recognised by the library itself (the bare expression returns an error); that the right inputs are faults is checked for the arithmetic/indexing faults the property names, the rest is C07/C14's oracle",
 			"coop part: see C06 (scheduler shim, virtual time)"},
-		QuickBudget: 60e9, ThoroughBudget: 25 * 60e9,
+		QuickBudget: 120e9, ThoroughBudget: 25 * 60e9,
 		CrashIsViolation: true,
 		ClassifyCrash:    classifyCrash,
 		HangSeconds:      60,
